@@ -1,8 +1,19 @@
 import Qryn.Ingest.Faults
+import Qryn.Ingest.PreRequest
+import Qryn.Base.Bytes
 /-! Line protocol for C05.
     `c05ingest <fixes: 0 = pinned | 1 = fixed> <route 0..10> <encoding 0..3> <tree tokens…>` → `s<status>|crash|hang r<0|1>`
       (outcome, and whether the shared columns are rectangular afterwards, starting from empty ones)
     `c05stale` → `-` or `key|group,key|group,…` (functions whose body hash differs from the placement's)
+    `c05pre <route 0..10> <Content-Encoding hex|-> <bodyLen> <bodyHead hex|-> <gzipHeaderOk 0|1> <streamLen>
+            <streamHead hex|-> <streamEof 0|1> <decodeOk 0|1> <decodedLen> <streamIsDoc 0|1> <decodedIsDoc 0|1> <tree…>`
+      the pre-request chain (`Qryn.PreRequest.preRequest`) composed with `ingest`: the results of the third-party
+      calls on THIS request are the arguments (gzip/snappy-framing stream over the body: length, first bytes, how it
+      ends; `snappy.Decode` of the buffered stream: ok?, length); the block header is parsed by the model itself
+      (`refDecodedLen` on the first bytes). `…IsDoc`: those bytes are the document `tree` (1) or do not unmarshal (0).
+      → `reject|asSent|decoded s<status> alloc=<bytes> dec=<bytes Decode allocates>`
+    `c05limit` → the limit of withUnsnappyRequest as generated (`Gen.PreRequest.unsnappyLimit`)
+    `c05declen <hex|->` → `ok <n>` | `err` (`refDecodedLen`, compared with `snappy.DecodedLen`)
     A document is a tree of naturals written with `(` `)` as separate tokens. -/
 namespace Driver.C05
 open Qryn.IngestFaults
@@ -167,7 +178,66 @@ def showOutcome : Outcome → String
   | .crash => "crash"
   | .hang => "hang"
 
+/-- a byte buffer as the driver sees it: length and first bytes -/
+structure Buf where
+  len : Nat
+  head : List UInt8
+
+def bit? : String → Option Bool | "0" => some false | "1" => some true | _ => none
+
+def garbageBody : Route → Body
+  | .lokiProto => .lokiProto false []
+  | .promWrite => .promWrite false []
+  | .otlpTraces => .otlpTraces false []
+  | .otlpLogs => .otlpLogs false []
+  | _ => .garbage
+
+def kindOf : Route → Qryn.PreRequest.Kind
+  | .promWrite => .unsnappy
+  | .lokiProto => .unsnappy
+  | .otlpTraces => .buffered
+  | _ => .streamed
+
+def pre (route : Route) (ce : String) (body stream : Buf) (gzOk eof decOk : Bool) (decLen : Nat)
+    (streamIsDoc decodedIsDoc : Bool) (doc : Body) : String :=
+  let L : Qryn.PreRequest.Lib Buf := {
+    len := (·.len)
+    decodedLen := fun b => Qryn.PreRequest.refDecodedLen b.head
+    decode := fun b =>
+      match Qryn.PreRequest.refDecodedLen b.head with
+      | .error e => .error e
+      | .ok _ => if decOk then .ok ⟨decLen, []⟩ else .error .corrupt
+    gzipHeaderOk := fun _ => gzOk
+    gunzip := fun _ => ⟨stream, eof⟩
+    unframe := fun _ => ⟨stream, eof⟩ }
+  let res := Qryn.PreRequest.preRequest L (kindOf route) ce body
+  let dec := match (kindOf route), Qryn.PreRequest.contentEncoding L ce body with
+    | .unsnappy, .ok s => if s.eof then (Qryn.PreRequest.unsnappy L s.data).alloc else 0
+    | _, _ => 0
+  let tail := " alloc=" ++ toString res.alloc ++ " dec=" ++ toString dec
+  match res.outcome with
+  | .reject st => "reject s" ++ toString st ++ tail
+  | .parser s src =>
+    let isDoc := match src with | .asSent => streamIsDoc | .decoded => decodedIsDoc
+    let b := if isDoc then doc else garbageBody route
+    let st := if s.eof then showOutcome (ingestFull fixed flushThreshold ⟨true⟩ route ⟨.plain, b⟩ .empty).1 else "s?"
+    (match src with | .asSent => "asSent " | .decoded => "decoded ") ++ st ++ tail
+
 def handle : List String → Option String
+  | "c05pre" :: r :: ce :: bl :: bh :: gz :: sl :: shd :: eof :: dok :: dl :: sd :: dd :: toks => do
+    let route ← route? (← r.toNat?)
+    let ceB ← Qryn.ofHex ce
+    let ceS ← String.fromUTF8? (ByteArray.mk ceB.toArray)
+    let (t, rest) ← parseTree (toks.length + 1) toks
+    if !rest.isEmpty then none
+    let doc ← body? t
+    some (pre route ceS ⟨← bl.toNat?, ← Qryn.ofHex bh⟩ ⟨← sl.toNat?, ← Qryn.ofHex shd⟩ (← bit? gz) (← bit? eof)
+      (← bit? dok) (← dl.toNat?) (← bit? sd) (← bit? dd) doc)
+  | ["c05limit"] => some (toString Qryn.Gen.PreRequest.unsnappyLimit)
+  | ["c05declen", hx] => do
+    match Qryn.PreRequest.refDecodedLen (← Qryn.ofHex hx) with
+    | .ok n => some ("ok " ++ toString n)
+    | .error _ => some "err"
   | "c05ingest" :: fx :: r :: e :: toks => do
     let fixes ← (match fx with | "0" => some pinned | "1" => some fixed | _ => none)
     let route ← route? (← r.toNat?)
